@@ -16,7 +16,12 @@ use crate::verif::ShardArgs;
 const P: &str = "C12";
 
 pub fn populate(db: &mut Database, r: &mut Rng, n: u16) {
-    let classes = [Some(EventClass::Class1), Some(EventClass::Class2), Some(EventClass::Class3), None];
+    let classes = [
+        Some(EventClass::Class1),
+        Some(EventClass::Class2),
+        Some(EventClass::Class3),
+        None,
+    ];
     for i in 0..n {
         db.add(i, *r.pick(&classes), BinaryInputConfig::default());
         db.add(i, *r.pick(&classes), DoubleBitBinaryInputConfig::default());
@@ -35,17 +40,33 @@ pub fn some_events(db: &mut Database, r: &mut Rng, n: u16, count: usize, t0: u64
         let t = Time::synchronized(t0 + k as u64);
         match r.below(4) {
             0 => {
-                db.update(i, &BinaryInput::new(r.bool(), Flags::new(0x01 | (r.u8() & 0x1E)), t), UpdateOptions::new(true, EventMode::Force));
+                db.update(
+                    i,
+                    &BinaryInput::new(r.bool(), Flags::new(0x01 | (r.u8() & 0x1E)), t),
+                    UpdateOptions::new(true, EventMode::Force),
+                );
             }
             1 => {
-                db.update(i, &AnalogInput::new(r.u32() as f64 / 3.0, Flags::ONLINE, t), UpdateOptions::new(true, EventMode::Force));
+                db.update(
+                    i,
+                    &AnalogInput::new(r.u32() as f64 / 3.0, Flags::ONLINE, t),
+                    UpdateOptions::new(true, EventMode::Force),
+                );
             }
             2 => {
-                db.update(i, &Counter::new(r.u32(), Flags::ONLINE, t), UpdateOptions::new(true, EventMode::Force));
+                db.update(
+                    i,
+                    &Counter::new(r.u32(), Flags::ONLINE, t),
+                    UpdateOptions::new(true, EventMode::Force),
+                );
             }
             _ => {
                 let n = r.range(1, 12) as usize;
-                db.update(i, &OctetString::new(&r.bytes(n)).unwrap(), UpdateOptions::new(true, EventMode::Force));
+                db.update(
+                    i,
+                    &OctetString::new(&r.bytes(n)).unwrap(),
+                    UpdateOptions::new(true, EventMode::Force),
+                );
             }
         }
     }
@@ -70,10 +91,20 @@ impl Ctx<'_> {
                 ("why", J::s(why)),
                 ("state", J::s(self.state)),
                 ("request", req.map(|q| J::hex(&q.bytes)).unwrap_or(J::Null)),
-                ("request_class", req.map(|q| J::s(q.class.clone())).unwrap_or(J::Null)),
-                ("fragment", frag.map(|f| J::hex(&f[..f.len().min(300)])).unwrap_or(J::Null)),
+                (
+                    "request_class",
+                    req.map(|q| J::s(q.class.clone())).unwrap_or(J::Null),
+                ),
+                (
+                    "fragment",
+                    frag.map(|f| J::hex(&f[..f.len().min(300)]))
+                        .unwrap_or(J::Null),
+                ),
                 ("config", self.cfg.to_json()),
-                ("history", J::arr(self.history.iter().rev().take(12).rev().cloned())),
+                (
+                    "history",
+                    J::arr(self.history.iter().rev().take(12).rev().cloned()),
+                ),
             ]),
             J::obj(vec![
                 ("check", J::s("c12")),
@@ -91,30 +122,71 @@ impl Ctx<'_> {
         let fr = match ra::Fragment::parse(f) {
             Some(x) => x,
             None => {
-                self.viol("S4_parse", "unsol|short", "unsolicited fragment shorter than a response header".into(), None, Some(f));
+                self.viol(
+                    "S4_parse",
+                    "unsol|short",
+                    "unsolicited fragment shorter than a response header".into(),
+                    None,
+                    Some(f),
+                );
                 return;
             }
         };
         if !(fr.uns() && fr.fir() && fr.fin() && fr.con()) || fr.func != ra::F_UNSOL_RESPONSE {
-            self.viol("S2_flags", &format!("ctrl={:02x}", fr.ctrl & 0xF0), format!("unsolicited response with control {:02x} function {}", fr.ctrl, fr.func), None, Some(f));
+            self.viol(
+                "S2_flags",
+                &format!("ctrl={:02x}", fr.ctrl & 0xF0),
+                format!(
+                    "unsolicited response with control {:02x} function {}",
+                    fr.ctrl, fr.func
+                ),
+                None,
+                Some(f),
+            );
         }
         if let Some(prev) = &self.last_unsol {
             let pseq = prev[0] & 0x0F;
             if prev.as_slice() == f {
                 out::count("unsol_retries_seen", 1);
             } else if fr.seq() != (pseq + 1) & 0x0F {
-                self.viol("S2_seq", "unsol-seq", format!("new unsolicited response has sequence {} after {}", fr.seq(), pseq), None, Some(f));
+                self.viol(
+                    "S2_seq",
+                    "unsol-seq",
+                    format!(
+                        "new unsolicited response has sequence {} after {}",
+                        fr.seq(),
+                        pseq
+                    ),
+                    None,
+                    Some(f),
+                );
             } else {
                 out::count("unsol_seq_consecutive", 1);
             }
         }
         self.last_unsol = Some(f.to_vec());
         if f.len() > self.cfg.unsol_tx {
-            self.viol("S4_size", "unsol", format!("unsolicited fragment of {} bytes exceeds the configured {}", f.len(), self.cfg.unsol_tx), None, Some(f));
+            self.viol(
+                "S4_size",
+                "unsol",
+                format!(
+                    "unsolicited fragment of {} bytes exceeds the configured {}",
+                    f.len(),
+                    self.cfg.unsol_tx
+                ),
+                None,
+                Some(f),
+            );
         }
         let w = ra::walk(ra::F_UNSOL_RESPONSE, &fr.objects, true);
         if let Some(e) = w.error {
-            self.viol("S4_parse", "unsol", format!("unsolicited fragment does not parse: {e:?}"), None, Some(f));
+            self.viol(
+                "S4_parse",
+                "unsol",
+                format!("unsolicited fragment does not parse: {e:?}"),
+                None,
+                Some(f),
+            );
         }
     }
 
@@ -126,30 +198,77 @@ impl Ctx<'_> {
             let fr = match ra::Fragment::parse(f) {
                 Some(x) => x,
                 None => {
-                    self.viol("S4_parse", "sol|short", "solicited fragment shorter than a response header".into(), Some(req), Some(f));
+                    self.viol(
+                        "S4_parse",
+                        "sol|short",
+                        "solicited fragment shorter than a response header".into(),
+                        Some(req),
+                        Some(f),
+                    );
                     continue;
                 }
             };
             if fr.uns() || fr.func != ra::F_RESPONSE {
-                self.viol("S1_uns", "sol", format!("solicited response with control {:02x} function {}", fr.ctrl, fr.func), Some(req), Some(f));
+                self.viol(
+                    "S1_uns",
+                    "sol",
+                    format!(
+                        "solicited response with control {:02x} function {}",
+                        fr.ctrl, fr.func
+                    ),
+                    Some(req),
+                    Some(f),
+                );
             }
             let want = (req.seq + k as u8) & 0x0F;
             if fr.seq() != want {
-                self.viol("S1_seq", &format!("frag{}", k.min(2)), format!("response fragment {k} has sequence {}, request had {} (expected {want})", fr.seq(), req.seq), Some(req), Some(f));
+                self.viol(
+                    "S1_seq",
+                    &format!("frag{}", k.min(2)),
+                    format!(
+                        "response fragment {k} has sequence {}, request had {} (expected {want})",
+                        fr.seq(),
+                        req.seq
+                    ),
+                    Some(req),
+                    Some(f),
+                );
             } else {
                 out::count("S1_seq_ok", 1);
             }
             if fr.fir() != (k == 0) {
-                self.viol("S1_fir", &format!("frag{}", k.min(2)), format!("fragment {k} FIR={}", fr.fir()), Some(req), Some(f));
+                self.viol(
+                    "S1_fir",
+                    &format!("frag{}", k.min(2)),
+                    format!("fragment {k} FIR={}", fr.fir()),
+                    Some(req),
+                    Some(f),
+                );
             }
             if f.len() > self.cfg.sol_tx {
-                self.viol("S4_size", "sol", format!("solicited fragment of {} bytes exceeds the configured {}", f.len(), self.cfg.sol_tx), Some(req), Some(f));
+                self.viol(
+                    "S4_size",
+                    "sol",
+                    format!(
+                        "solicited fragment of {} bytes exceeds the configured {}",
+                        f.len(),
+                        self.cfg.sol_tx
+                    ),
+                    Some(req),
+                    Some(f),
+                );
             } else {
                 out::count("S4_size_ok", 1);
             }
             let w = ra::walk(ra::F_RESPONSE, &fr.objects, true);
             if let Some(e) = w.error {
-                self.viol("S4_parse", "sol", format!("response does not parse: {e:?}"), Some(req), Some(f));
+                self.viol(
+                    "S4_parse",
+                    "sol",
+                    format!("response does not parse: {e:?}"),
+                    Some(req),
+                    Some(f),
+                );
             } else {
                 out::count("S4_parse_ok", 1);
             }
@@ -162,7 +281,8 @@ fn split(rx: Vec<Rx>) -> (Vec<Vec<u8>>, Vec<Vec<u8>>, Vec<Rx>) {
     for x in rx {
         match &x {
             Rx::Fragment { bytes, .. } => {
-                if bytes.len() >= 2 && (bytes[0] & ra::UNS != 0 || bytes[1] == ra::F_UNSOL_RESPONSE) {
+                if bytes.len() >= 2 && (bytes[0] & ra::UNS != 0 || bytes[1] == ra::F_UNSOL_RESPONSE)
+                {
                     unsol.push(bytes.clone())
                 } else {
                     sol.push(bytes.clone())
@@ -182,8 +302,16 @@ async fn scenario(a: &ShardArgs, idx: u64) {
     cfg.rx = *r.pick(&[249usize, 500, 2048]);
     cfg.decode = r.usize_below(108);
     cfg.discard = r.bool();
-    cfg.max_controls = if r.chance(1, 4) { Some(r.range(0, 3) as u16) } else { None };
-    cfg.max_read_headers = if r.chance(1, 6) { Some(r.range(1, 4) as u16) } else { None };
+    cfg.max_controls = if r.chance(1, 4) {
+        Some(r.range(0, 3) as u16)
+    } else {
+        None
+    };
+    cfg.max_read_headers = if r.chance(1, 6) {
+        Some(r.range(1, 4) as u16)
+    } else {
+        None
+    };
     let kind = r.below(4);
     cfg.unsolicited = kind >= 2;
     cfg.confirm_timeout_ms = *r.pick(&[50u64, 1000, 5000]);
@@ -203,7 +331,14 @@ async fn scenario(a: &ShardArgs, idx: u64) {
         2 => "unsol-ready",
         _ => "unsol-confirm-wait",
     };
-    let mut cx = Ctx { a, idx, cfg: cfg.clone(), state, history: vec![], last_unsol: None };
+    let mut cx = Ctx {
+        a,
+        idx,
+        cfg: cfg.clone(),
+        state,
+        history: vec![],
+        last_unsol: None,
+    };
     let mut seq: u8 = r.below(16) as u8;
     let mut in_unsol_wait = false;
 
@@ -213,7 +348,13 @@ async fn scenario(a: &ShardArgs, idx: u64) {
         cx.check_unsol(u);
     }
     if !sol.is_empty() {
-        cx.viol("S1_spontaneous", "start", "solicited response without a request".into(), None, Some(&sol[0]));
+        cx.viol(
+            "S1_spontaneous",
+            "start",
+            "solicited response without a request".into(),
+            None,
+            Some(&sol[0]),
+        );
     }
     for o in &other {
         if let Rx::Garbage { why, bytes, .. } = o {
@@ -230,7 +371,13 @@ async fn scenario(a: &ShardArgs, idx: u64) {
                 cx.check_unsol(u);
             }
             if !s.is_empty() {
-                cx.viol("S3_confirm_answered", "unsol-confirm", "a CONFIRM was answered".into(), None, Some(&s[0]));
+                cx.viol(
+                    "S3_confirm_answered",
+                    "unsol-confirm",
+                    "a CONFIRM was answered".into(),
+                    None,
+                    Some(&s[0]),
+                );
             }
         }
     }
@@ -240,8 +387,19 @@ async fn scenario(a: &ShardArgs, idx: u64) {
         if kind == 1 && npoints > 0 {
             // put the session into a solicited confirm wait: a read that needs confirmation
             seq = (seq + 1) & 0x0F;
-            let rd = ra::B::request(ra::F_READ, seq).all(60, 2).all(60, 3).all(60, 4).all(60, 1).done();
-            let pre = Req { bytes: rd.clone(), func: ra::F_READ, seq, class: "setup-read".into(), expect: Expect::Response };
+            let rd = ra::B::request(ra::F_READ, seq)
+                .all(60, 2)
+                .all(60, 3)
+                .all(60, 4)
+                .all(60, 1)
+                .done();
+            let pre = Req {
+                bytes: rd.clone(),
+                func: ra::F_READ,
+                seq,
+                class: "setup-read".into(),
+                expect: Expect::Response,
+            };
             let (s, us, _) = split(sim.request(&rd).await);
             cx.check_solicited(&pre, &s, 0);
             for u in &us {
@@ -254,7 +412,12 @@ async fn scenario(a: &ShardArgs, idx: u64) {
         }
         seq = (seq + r.range(1, 3) as u8) & 0x0F;
         let req = gen::c12_request(&mut r, seq, cfg.unsolicited, cfg.rx);
-        cx.history.push(format!("t={} {} {}", sim.now(), req.class, hex(&req.bytes[..req.bytes.len().min(40)])));
+        cx.history.push(format!(
+            "t={} {} {}",
+            sim.now(),
+            req.class,
+            hex(&req.bytes[..req.bytes.len().min(40)])
+        ));
         out::eval(1);
         for (_, e) in sim.mock.take() {
             match e {
@@ -263,7 +426,15 @@ async fn scenario(a: &ShardArgs, idx: u64) {
                 _ => {}
             }
         }
-        let state: &'static str = if in_unsol_wait { "unsol-confirm-wait" } else if kind == 1 { "sol-confirm-wait" } else if cfg.unsolicited { "unsol-ready" } else { "idle" };
+        let state: &'static str = if in_unsol_wait {
+            "unsol-confirm-wait"
+        } else if kind == 1 {
+            "sol-confirm-wait"
+        } else if cfg.unsolicited {
+            "unsol-ready"
+        } else {
+            "idle"
+        };
         cx.state = state;
         let rx = sim.request(&req.bytes).await;
         let (mut sol, unsol, other) = split(rx);
@@ -277,7 +448,11 @@ async fn scenario(a: &ShardArgs, idx: u64) {
         }
         // a READ received during an unsolicited confirm wait is answered after the series ends
         let mut deferred = false;
-        if cfg.unsolicited && sol.is_empty() && req.func == ra::F_READ && req.bytes[0] & 0xF0 == (ra::FIR | ra::FIN) {
+        if cfg.unsolicited
+            && sol.is_empty()
+            && req.func == ra::F_READ
+            && req.bytes[0] & 0xF0 == (ra::FIR | ra::FIN)
+        {
             deferred = true;
             sim.advance(cfg.confirm_timeout_ms).await;
             let (s2, us2, _) = split(sim.collect());
@@ -288,26 +463,58 @@ async fn scenario(a: &ShardArgs, idx: u64) {
             out::count("deferred_reads", 1);
         }
         cx.check_solicited(&req, &sol, 0);
-        let key = format!("{}/{}/{}", state, req.class, if deferred { "deferred" } else { "now" });
+        let key = format!(
+            "{}/{}/{}",
+            state,
+            req.class,
+            if deferred { "deferred" } else { "now" }
+        );
         out::distinct(&key);
         match req.expect {
             Expect::NoReply => {
                 if !sol.is_empty() {
-                    cx.viol("S3_no_reply", &format!("f{}", req.func), format!("function {} was answered", req.func), Some(&req), Some(&sol[0]));
+                    cx.viol(
+                        "S3_no_reply",
+                        &format!("f{}", req.func),
+                        format!("function {} was answered", req.func),
+                        Some(&req),
+                        Some(&sol[0]),
+                    );
                 } else {
                     out::count("S3_no_reply_ok", 1);
                 }
             }
             Expect::Error => {
                 if sol.is_empty() {
-                    cx.viol("S5_silence", &req.class, "request that must be rejected got no response".into(), Some(&req), None);
+                    cx.viol(
+                        "S5_silence",
+                        &req.class,
+                        "request that must be rejected got no response".into(),
+                        Some(&req),
+                        None,
+                    );
                 } else {
                     let f = &sol[0];
                     if sol.len() != 1 && !(f[0] & ra::FIN == 0) {
-                        cx.viol("S5_count", &req.class, format!("{} responses to one rejected request", sol.len()), Some(&req), Some(f));
+                        cx.viol(
+                            "S5_count",
+                            &req.class,
+                            format!("{} responses to one rejected request", sol.len()),
+                            Some(&req),
+                            Some(f),
+                        );
                     }
                     if f.len() >= 4 && f[3] & ra::IIN2_ERRORS == 0 {
-                        cx.viol("S5_clean", &req.class, format!("rejected request answered with IIN2={:02x} (no error bit)", f[3]), Some(&req), Some(f));
+                        cx.viol(
+                            "S5_clean",
+                            &req.class,
+                            format!(
+                                "rejected request answered with IIN2={:02x} (no error bit)",
+                                f[3]
+                            ),
+                            Some(&req),
+                            Some(f),
+                        );
                     } else {
                         out::count("S5_error_reported", 1);
                     }
@@ -315,7 +522,13 @@ async fn scenario(a: &ShardArgs, idx: u64) {
             }
             Expect::Response | Expect::Clean => {
                 if sol.is_empty() {
-                    cx.viol("S1_silence", &req.class, "well-formed request got no response".into(), Some(&req), None);
+                    cx.viol(
+                        "S1_silence",
+                        &req.class,
+                        "well-formed request got no response".into(),
+                        Some(&req),
+                        None,
+                    );
                 } else {
                     out::count("responses_to_good_requests", 1);
                 }
@@ -338,7 +551,13 @@ async fn scenario(a: &ShardArgs, idx: u64) {
             }
             if f[0] & ra::FIN != 0 {
                 if !s.is_empty() {
-                    cx.viol("S3_confirm_answered", "final", "fragment sent after the confirm of a final fragment".into(), Some(&req), Some(&s[0]));
+                    cx.viol(
+                        "S3_confirm_answered",
+                        "final",
+                        "fragment sent after the confirm of a final fragment".into(),
+                        Some(&req),
+                        Some(&s[0]),
+                    );
                 }
                 break;
             }
@@ -352,7 +571,10 @@ async fn scenario(a: &ShardArgs, idx: u64) {
                 ("state", J::s(state)),
                 ("request_class", J::s(req.class.clone())),
                 ("request", J::hex(&req.bytes)),
-                ("responses", J::A(sol.iter().map(|f| J::hex(&f[..f.len().min(80)])).collect())),
+                (
+                    "responses",
+                    J::A(sol.iter().map(|f| J::hex(&f[..f.len().min(80)])).collect()),
+                ),
             ]));
         }
     }
@@ -368,17 +590,32 @@ async fn scenario(a: &ShardArgs, idx: u64) {
         }
     }
     if sim.task_finished() {
-        cx.viol("task_ended", "ended", "the outstation server task ended".into(), None, None);
+        cx.viol(
+            "task_ended",
+            "ended",
+            "the outstation server task ended".into(),
+            None,
+            None,
+        );
     }
     let panics = crate::verif::util::take_panics();
     for p in panics {
-        cx.viol("panic", &crate::verif::util::norm_location(&p.location), format!("panic: {} at {}", p.message, p.location), None, None);
+        cx.viol(
+            "panic",
+            &crate::verif::util::norm_location(&p.location),
+            format!("panic: {} at {}", p.message, p.location),
+            None,
+            None,
+        );
     }
 }
 
 pub fn run(a: &ShardArgs) -> Result<(), String> {
     let n = a.n(6000);
-    let only: Option<u64> = a.replay.as_ref().and_then(|p| super::common::replay_scenario(p));
+    let only: Option<u64> = a
+        .replay
+        .as_ref()
+        .and_then(|p| super::common::replay_scenario(p));
     for idx in 0..n {
         if idx % a.nshards != a.shard {
             continue;
